@@ -311,6 +311,19 @@ fn gen(tier: &str, rng: &mut Sm) -> Gen {
         }
         g.inputs.push(tl![A(0), L(pop.clone()), A(-1), L(vec![tl![A(0), A(-1)], tl![A(4), A(-1)], tl![A(0), a(size as i64 - 1)], tl![A(0), A(-1)]])]);
     }
+    // a LARGE population under wide pools: many workers report at once (an error must not get lost under contention,
+    // the children must not share randomness however the work is split)
+    {
+        let size = 3000usize;
+        let pop: Vec<Tree> = (0..size as i64).map(a).collect();
+        for mode in [8usize, 16] {
+            for f in [-1i64, 0, 1500, 2999] {
+                for _ in 0..(if tier == "thorough" { 6 } else { 2 }) {
+                    g.inputs.push(tl![au(mode), L(pop.clone()), a(f)]);
+                }
+            }
+        }
+    }
     // set-typed populations (children collide, the population shrinks and the next step must follow its new size)
     // and double-ended queues, single steps and histories
     for size in [0usize, 1, 4, 6] {
@@ -326,6 +339,6 @@ fn gen(tier: &str, rng: &mut Sm) -> Gen {
             g.inputs.push(tl![b(4), L(pop.clone()), A(-1), L(vec![tl![b(4), A(-1)], tl![b(0), A(-1)], tl![b(2), A(1)], tl![b(2), A(-1)]])]);
         }
     }
-    g.meta("generator", format!("population sizes 0, 1, 2, 7, 64; serial_next and par_next under rayon pools of 1, 2, 3, 4, 8, 16 threads x {reps} repetitions; failure injected at every call position (sampled for size 64) and none; a child maker built through GenomeScorer with a one-off failing genome maker; histories of 5 steps of one Generation value (failing steps followed by successful ones, serial and parallel mixed); BTreeSet populations whose children collide (the size changes between steps) and VecDeque populations"));
+    g.meta("generator", format!("population sizes 0, 1, 2, 7, 64 (and 3000 under pools of 8 and 16 threads); serial_next and par_next under rayon pools of 1, 2, 3, 4, 8, 16 threads x {reps} repetitions; failure injected at every call position (sampled for size 64) and none; a child maker built through GenomeScorer with a one-off failing genome maker; histories of 5 steps of one Generation value (failing steps followed by successful ones, serial and parallel mixed); BTreeSet populations whose children collide (the size changes between steps) and VecDeque populations"));
     g
 }
